@@ -480,6 +480,46 @@ impl World {
         }
     }
 
+    /// Which holder commitment does a released funding signature belong to?  Verified against the
+    /// commitment transactions built here for the numbers around the counter and every content; the request's
+    /// own number is not trusted.
+    fn attribute_holder_sig(&mut self, sig: &Signature, requested: u64, via: &str) -> u64 {
+        use lightning_signer::lightning::ln::chan_utils::make_funding_redeemscript;
+        let next = self.estate().map(|e| e.next_holder_commit_num).unwrap_or(0);
+        let (nc, cc) = (self.node_ctx(), self.chan_ctx());
+        let mut cands: Vec<u64> = vec![requested];
+        for n in next.saturating_sub(3)..=next + 1 {
+            if n != requested {
+                cands.push(n);
+            }
+        }
+        for n in cands {
+            if self.node.with_channel(&self.channel_id, |ch| ch.get_per_commitment_point(n)).is_err() {
+                continue;
+            }
+            for c in all_contents() {
+                let (th, tc) = content(c);
+                let ctx = channel_commitment(&nc, &cc, n, content_feerate(c), th, tc, vec![], htlcs_of(c));
+                let ok = self
+                    .node
+                    .with_channel(&self.channel_id, |chan| {
+                        let redeem = make_funding_redeemscript(&chan.keys.pubkeys().funding_pubkey, &chan.counterparty_pubkeys().funding_pubkey);
+                        let sighash = ctx.tx.as_ref().unwrap().trust().built_transaction().get_sighash_all(&redeem, cc.setup.channel_value_sat);
+                        Ok(self.secp.verify_ecdsa(&sighash, sig, &chan.keys.pubkeys().funding_pubkey).is_ok())
+                    })
+                    .unwrap_or(false);
+                if ok {
+                    if n != requested {
+                        self.tags.insert("holder-sig:other-number".into());
+                    }
+                    return n;
+                }
+            }
+        }
+        self.violation("c02-signed-unknown-tx", format!("{}: the returned signature fits none of the candidate holder commitments (asked for {})", via, requested));
+        requested
+    }
+
     fn on_holder_sig(&mut self, n: u64, via: &str) {
         if self.mon.revoked.contains(&n) {
             self.violation("c02-signed-and-revoked", format!("{} released a holder signature on commitment {} whose secret was disclosed earlier", via, n));
@@ -807,9 +847,13 @@ impl World {
         let res: Result<String, String> = match catch_unwind(AssertUnwindSafe(|| -> Result<String, String> {
             match kind {
                 "setup" => {
-                    let r = self.node.setup_channel(self.channel_id.clone(), None, self.setup.clone(), &DerivationPath::master());
+                    let perm = ChannelId::new(&[0x77u8; 32]);
+                    let r = self.node.setup_channel(self.channel_id.clone(), Some(perm.clone()), self.setup.clone(), &DerivationPath::master());
                     match r {
                         Ok(_) => {
+                            // from now on the direct entry points look the channel up by its permanent id, the
+                            // handler arms by the initial id (peer id + dbid); the persister keys by the initial id
+                            self.channel_id = perm;
                             let nc = self.node_ctx();
                             self.cp_keys = Some(make_test_counterparty_keys(&nc, &self.channel_id, CHANNEL_VALUE));
                             // outgoing HTLCs (received by the counterparty) need an approved payment
@@ -878,7 +922,8 @@ impl World {
                 "signholder" => {
                     let n = num(1);
                     match self.node.with_channel(&self.channel_id, |chan| chan.sign_holder_commitment_tx_phase2(n)) {
-                        Ok(_) => {
+                        Ok(sig) => {
+                            let n = self.attribute_holder_sig(&sig, n, "sign_holder_commitment_tx_phase2");
                             self.on_holder_sig(n, "sign_holder_commitment_tx_phase2");
                             Ok(format!("ok signed={}", n))
                         }
@@ -926,7 +971,8 @@ impl World {
                     let (n, c) = (num(1), num(2));
                     let (th, tc) = content(c);
                     match self.node.with_channel(&self.channel_id, |chan| chan.sign_holder_commitment_tx_phase2_redundant(n, content_feerate(c), th, tc, vec![], htlcs_of(c))) {
-                        Ok(_) => {
+                        Ok(sig) => {
+                            let n = self.attribute_holder_sig(&sig, n, "sign_holder_commitment_tx_phase2_redundant");
                             self.on_holder_sig(n, "sign_holder_commitment_tx_phase2_redundant");
                             Ok(format!("ok signed={}", n))
                         }
@@ -939,6 +985,19 @@ impl World {
                     let script = { use lightning_signer::wallet::Wallet; self.node.get_native_address(&path).unwrap().script_pubkey() };
                     let cps = lightning_signer::bitcoin::ScriptBuf::from_hex("0014be56df7de366ad8ee9ccdad54e9a9993e99ef565").unwrap();
                     let (th, tc, cpscript) = if good { (2_998_000u64, 0u64, None) } else { (2_598_000u64, 400_000u64, Some(cps)) };
+                    if num(2) == 1 {
+                        // phase 1: the closing transaction itself plus one wallet path per output
+                        use lightning_signer::lightning::ln::chan_utils::ClosingTransaction;
+                        let ctx = ClosingTransaction::new(th, tc, script.clone(), cpscript.clone().unwrap_or_default(), self.setup.funding_outpoint);
+                        let tx = ctx.trust().built_transaction().clone();
+                        let opaths: Vec<DerivationPath> =
+                            tx.output.iter().map(|o| if o.script_pubkey == script { path.clone() } else { DerivationPath::master() }).collect();
+                        return self
+                            .node
+                            .with_channel(&self.channel_id, |chan| chan.sign_mutual_close_tx(&tx, &opaths))
+                            .map(|_| "ok".to_string())
+                            .map_err(|e| class_of(&e));
+                    }
                     self.node
                         .with_channel(&self.channel_id, |chan| chan.sign_mutual_close_tx_phase2(th, tc, &Some(script.clone()), &cpscript, &path))
                         .map(|_| "ok".to_string())
@@ -1110,7 +1169,14 @@ impl World {
                     let (ver, n) = (num(1) as u32, num(2));
                     let h = self.handler(ver);
                     match h.handle(Message::SignLocalCommitmentTx2(msgs::SignLocalCommitmentTx2 { commitment_number: n })) {
-                        Ok(_) => {
+                        Ok(rep) => {
+                            let n = match self.reply(rep) {
+                                Message::SignCommitmentTxReply(r) => match Signature::from_compact(&r.signature.signature.0) {
+                                    Ok(sig) => self.attribute_holder_sig(&sig, n, "SignLocalCommitmentTx2"),
+                                    Err(_) => n,
+                                },
+                                _ => n,
+                            };
                             self.on_holder_sig(n, "SignLocalCommitmentTx2");
                             Ok(format!("ok signed={}", n))
                         }
@@ -1138,7 +1204,14 @@ impl World {
                         commitment_number: n,
                     };
                     match root.handle(Message::SignCommitmentTx(m)) {
-                        Ok(_) => {
+                        Ok(rep) => {
+                            let n = match self.reply(rep) {
+                                Message::SignCommitmentTxReply(r) => match Signature::from_compact(&r.signature.signature.0) {
+                                    Ok(sig) => self.attribute_holder_sig(&sig, n, "SignCommitmentTx"),
+                                    Err(_) => n,
+                                },
+                                _ => n,
+                            };
                             self.on_holder_sig(n, "SignCommitmentTx");
                             Ok(format!("ok signed={}", n))
                         }
@@ -1363,6 +1436,13 @@ impl World {
             Ok(r) => r,
             Err(_) => {
                 self.dead = true;
+                // The secret accessors are total (checked arithmetic since 0078200; `C01_guard_no_panic`): a panic
+                // inside one of them means a request got past the release guard into index arithmetic that
+                // overflows — in a release build the same request wraps and returns a secret.
+                if matches!(kind, "getsecret" | "getsecretnone" | "revoke") {
+                    let n = num(1);
+                    self.violation("c01-secret-path-panic", format!("{} {} panicked inside the secret-release path (a release build wraps here and discloses)", kind, n));
+                }
                 Err("panic".into())
             }
         };
